@@ -410,6 +410,15 @@ class Model:
             self.ended_tasks.pop(uid, None)
             self.stat('retired')
 
+    def on_clockstep(self, r):
+        """the wall clock was set DT seconds ahead or back.  Executor lifetimes are real durations: what the
+        model knows about running executions moves with the clock; occurrence times are wall-clock times and stay."""
+        dt = r['dt']
+        for p in self.running.values():
+            p['t_exit'] += dt
+            p['t_spawn'] += dt
+        self.stat('clock_steps_forward' if dt > 0 else 'clock_steps_back')
+
     def on_signal(self, r):
         self.sigs.append(r['sig'])
         if r['sig'] in (2, 15):
